@@ -26,7 +26,7 @@ ASSUMPTIONS = [
 ]
 COMPONENTS = {"real": ["TradingEnv.step", "Broker.rebalance/net_liquidation_value", "rewards.*", "Transmitter", "Exchange"],
               "harness": ["shock generator", "independent Fraction ledger"], "stub": []}
-PROBE_FLOORS = {"ruin_on_arrival": 21, "ruin_post_trade": 100, "ruin_exactly_zero": 20, "ruin_on_first_step": 36,
+PROBE_FLOORS = {"neighbour_environment_through_the_same_shock": 50, "ruin_on_arrival": 21, "ruin_post_trade": 100, "ruin_exactly_zero": 20, "ruin_on_first_step": 36,
                 "ruin_by_own_costs": 50, "steps_attempted_after_end": 300, "recovery_after_ruin": 50, "reset_after_ruin_works": 20, "ruin_inside_spread_band": 12, "end_of_episode_handler_failed": 10, "ruin_episode_replayed": 120, "insolvent_only_after_interest_is_charged": 25, "quote_pushed_between_steps": 15, "ruin_by_a_quote_of_exactly_zero": 18}
 
 
@@ -192,6 +192,8 @@ def execute(scenario):
     h = sim.handles[0]
     recs = [r for r in sim.sink.records if r.get("env") == 0]
     meta = scenario.get("meta", {})
+    if meta.get("neighbour"):
+        probe("neighbour_environment_through_the_same_shock")
     ruin_seen = False
     shapes = []
     for ei, ep in enumerate(h.episodes):
@@ -401,3 +403,22 @@ def shrink_paths(scenario):
 
 
 generate = gen_epi.with_backtest_driver(generate, 0.2)
+_generate_single = generate
+
+
+def generate(rng, i):
+    sc = _generate_single(rng, i)
+    if i % 6 == 1 and sc.get("driver") != "backtest" and len(sc.get("envs", [])) == 1:
+        # a neighbour: a second environment of the same configuration (its own transmitter, exchange and account) lives
+        # in the process and makes every call right before the judged one does - it holds the same contracts through the
+        # same shock.  What it does and suffers is not judged; the judged environment must behave as if it were alone
+        import copy
+        sc["envs"].append(copy.deepcopy(sc["envs"][0]))
+        script = []
+        for op in sc["script"]:
+            if op.get("env", 0) == 0 and op["op"] in ("reset", "step", "notify_quote"):
+                script.append(dict(copy.deepcopy(op), env=1))
+            script.append(op)
+        sc["script"] = script
+        sc["meta"]["neighbour"] = True
+    return sc
